@@ -114,7 +114,7 @@ def default_targets(prop: str):
     if n <= 3: t += ['Gen/ModbusGen.vo', 'Gen/ProtoGen.vo']
     if n <= 10: t += ['Model/Proto.vo']
     if n == 7 or n == 8: t += ['Gen/ModbusGen.vo', 'Gen/ProtoGen.vo']
-    if n == 9: t += ['Model/FailCount.vo']
+    if n == 9: t += ['Model/FailCount.vo', 'Proofs/InvProgRefine.vo']
     if n in (11, 12, 13, 16): t += ['Model/Sensors.vo', 'Gen/TablesGen.vo']
     if n in (14, 15): t += ['Model/ETCaps.vo']
     if n in (17, 19): t += ['Model/Sensors.vo', 'Model/Settings.vo', 'Gen/SettingsGen.vo']
